@@ -223,6 +223,8 @@ func (c *ctx) runLines(path string) {
 			}
 		case "use":
 			c.h.opUse(universe.BySid(sid))
+		case "useboom":
+			c.h.opUseBoom(universe.BySid(sid), nil)
 		case "rt":
 			u := universe.BySid(sid)
 			c.rtOne(u, parseInto(u, tok[2]), parseInto(u, tok[3]))
